@@ -956,12 +956,49 @@ func main() {
 
 	var rows []row
 
+	tp := loadTyped(*repo)
+
+	// the name member (ResultName / Name / resultName): is it validate:"required"?
+	required := func(p *pkgInfo, r *row) bool {
+		var find func(st, field string) (string, bool)
+		find = func(st, field string) (string, bool) {
+			if tg, ok := p.tags[st][field]; ok {
+				return tg, true
+			}
+			for _, e := range p.embeds[st] {
+				if tg, ok := find(e, field); ok {
+					return tg, true
+				}
+			}
+			return "", false
+		}
+		if len(r.DeclNames) != 1 {
+			return false
+		}
+		tg, ok := find(r.Struct, r.DeclNames[0])
+		if !ok {
+			return false
+		}
+		m := regexp.MustCompile(`validate:"([^"]*)"`).FindStringSubmatch(tg)
+		if m == nil {
+			return false
+		}
+		for _, v := range strings.Split(m[1], ",") {
+			if v == "required" {
+				return true
+			}
+		}
+		return false
+	}
+
 	// ---- actions
 	ap := loadPkg(filepath.Join(*repo, "flows", "actions"))
+	ap.mapFull = tp.mapFull
 	if len(ap.regs) == 0 {
 		fatal("no registerType(...) calls found in flows/actions")
 	}
-	if m, _ := ap.findMethod("baseAction", "saveResult"); m == nil {
+	sink, _ := ap.findMethod("baseAction", "saveResult")
+	if sink == nil {
 		fatal("baseAction.saveResult not found in flows/actions")
 	}
 	for _, reg := range ap.regs {
@@ -971,10 +1008,19 @@ func main() {
 			fatal("registered action type %s (%s) has no Execute method", reg.TypeName, reg.Struct)
 		}
 		ap.collectSaves(reg.Struct, exec, owner, nil, nil, "", &r, "saveResult", map[string]bool{}, nil)
+		if r.Saves {
+			for _, d := range ap.sinkDoors(sink) {
+				r.SitesSyn = addStr(r.SitesSyn, d)
+			}
+		}
 		if res, _ := ap.findMethod(reg.Struct, "Results"); res != nil {
 			r.Declares = true
 			ap.collectDecl(res, &r, "NewResultInfo")
 		}
+		r.NameRequired = required(ap, &r)
+		r.normaliseGuards()
+		sort.Strings(r.SitesSyn)
+		r.SitesTyped = tp.reach(modPath+"/flows/actions", reg.Struct, []string{"Execute"})
 		rows = append(rows, r)
 	}
 
@@ -999,18 +1045,22 @@ func main() {
 			r.Declares = true
 			rp.collectDecl(er, &r, "NewResultInfo")
 		}
+		r.NameRequired = required(rp, &r)
+		r.normaliseGuards()
+		sort.Strings(r.SitesSyn)
+		r.SitesTyped = tp.reach(modPath+"/flows/routers", reg.Struct, []string{"Route", "RouteTimeout"})
 		rows = append(rows, r)
 	}
 
-	// ---- census of the doors through which a result can be written
-	sites := census(filepath.Join(*repo, "flows"), *repo)
-	if len(sites) == 0 {
-		fatal("no call site of SaveResult found under flows/")
+	// ---- census of the doors through which a result can be written (typed pass)
+	if len(tp.doors) == 0 {
+		fatal("no use of Run.SaveResult / Results.Save found in the module")
 	}
 
 	var b strings.Builder
 	b.WriteString("(* ActionResults.v — GENERATED by translators/cmd/actionresults from flows/actions/*.go, flows/routers/*.go\n" +
-		"   and the call sites of Run.SaveResult / Results.Save under flows/.  Do not edit; regenerated on every check. *)\n" +
+		"   and (go/types) every use of Run.SaveResult / Results.Save and every index assignment on a flows.Results in the\n" +
+		"   module.  Do not edit; regenerated on every check. *)\n" +
 		"From Coq Require Import List String.\nFrom Verif Require Import model.ActionRow.\nImport ListNotations.\nOpen Scope string_scope.\n\n")
 	b.WriteString("Definition action_results : list action_row := [\n")
 	for i, r := range rows {
@@ -1021,7 +1071,8 @@ func main() {
 		b.WriteString("\n")
 	}
 	b.WriteString("].\n\n")
-	b.WriteString("Definition save_result_sites : list string := " + coqList(sites, coqStr) + ".\n")
+	b.WriteString("Definition save_result_sites : list (string * string) := " +
+		coqList(tp.doors, func(d doorSite) string { return "(" + coqStr(d.Site) + ", " + coqStr(tp.finalClass(d)) + ")" }) + ".\n")
 
 	if *show {
 		fmt.Print(b.String())
@@ -1068,6 +1119,8 @@ func (p *pkgInfo) routerSaves(t string, fn *ast.FuncDecl, owner string, r *row, 
 		if se.Sel.Name == "SaveResult" {
 			// the result saved: find flows.NewResult(name, value, category, ...) in the same function
 			r.Saves = true
+			r.SitesSyn = addStr(r.SitesSyn, p.site("door", se.Sel.Pos()))
+			r.SaveGuards = addGuard(r.SaveGuards, p.guardsTo(fn.Body.List, ce, nil))
 			foundNew := false
 			ast.Inspect(fn.Body, func(y ast.Node) bool {
 				c2, ok := y.(*ast.CallExpr)
@@ -1102,73 +1155,22 @@ func (p *pkgInfo) routerSaves(t string, fn *ast.FuncDecl, owner string, r *row, 
 						k++
 					}
 				}
+				// a call of a method that itself contains the door
+				direct := false
+				if m.Body != nil {
+					ast.Inspect(m.Body, func(z ast.Node) bool {
+						if s3, ok := z.(*ast.SelectorExpr); ok && s3.Sel.Name == "SaveResult" {
+							direct = true
+						}
+						return true
+					})
+				}
+				if direct {
+					r.SitesSyn = addStr(r.SitesSyn, p.site("use", se.Sel.Pos()))
+				}
 				p.routerSaves(t, m, mo, r, visited, &substCtx{args: sub, fn: fn, recv: recv, parent: ctx})
 			}
 		}
 		return true
 	})
-}
-
-func census(root, repo string) []string {
-	var sites []string
-	filepath.Walk(root, func(path string, info os.FileInfo, err error) error {
-		if err != nil {
-			fatal("walk %s: %v", path, err)
-		}
-		if info.IsDir() {
-			if info.Name() == "testdata" {
-				return filepath.SkipDir
-			}
-			return nil
-		}
-		if !strings.HasSuffix(path, ".go") || strings.HasSuffix(path, "_test.go") {
-			return nil
-		}
-		fset := token.NewFileSet()
-		f, err := parser.ParseFile(fset, path, nil, parser.SkipObjectResolution)
-		if err != nil {
-			fatal("parse %s: %v", path, err)
-		}
-		rel, _ := filepath.Rel(repo, path)
-		for _, d := range f.Decls {
-			fd, ok := d.(*ast.FuncDecl)
-			if !ok || fd.Body == nil {
-				continue
-			}
-			fname := fd.Name.Name
-			if fd.Recv != nil && len(fd.Recv.List) == 1 {
-				rt := fd.Recv.List[0].Type
-				if se, ok := rt.(*ast.StarExpr); ok {
-					rt = se.X
-				}
-				if id, ok := rt.(*ast.Ident); ok {
-					fname = id.Name + "." + fname
-				}
-			}
-			ast.Inspect(fd.Body, func(x ast.Node) bool {
-				ce, ok := x.(*ast.CallExpr)
-				if !ok {
-					return true
-				}
-				if se, ok := ce.Fun.(*ast.SelectorExpr); ok {
-					// Run.SaveResult(result)   |   <...>.results.Save(result) / Results().Save(result)
-					isSave := se.Sel.Name == "SaveResult"
-					if se.Sel.Name == "Save" {
-						var b bytes.Buffer
-						printer.Fprint(&b, fset, se.X)
-						if strings.Contains(strings.ToLower(b.String()), "results") {
-							isSave = true
-						}
-					}
-					if isSave {
-						sites = append(sites, filepath.ToSlash(rel)+":"+fname+":"+se.Sel.Name)
-					}
-				}
-				return true
-			})
-		}
-		return nil
-	})
-	sort.Strings(sites)
-	return sites
 }
